@@ -124,7 +124,13 @@ def handlers : List (String × (List String → String)) := [
   ("mchild", Harper.Driver.MergeRules.handleMChild),
   ("mrulem", Harper.Driver.MergeRules.handleMRuleM),
   ("mmtl", Harper.Driver.MergeRules.handleMMtl),
-  ("spellr", Harper.Driver.MergeRules.handleSpellR)
+  ("spellr", Harper.Driver.MergeRules.handleSpellR),
+  ("docfull", LexExt.handleDocFull),
+  ("srvseq", Server.handleSrvSeq),
+  ("cmask", Mask.handleCMask),
+  ("sugg", Spell.handleSugg),
+  ("mkd", Effects.handleMkd), ("effmk", Effects.handleEffmk), ("sde", Effects.handleSde),
+  ("htmlparse", Typst.handleHtmlParse)
 ]
 
 def handle (line : String) : String :=
